@@ -280,10 +280,15 @@ func (ii *invertedIndex) put(key, seriesID uint32) {
 }
 
 func (ii *invertedIndex) getSeriesIDs(key uint32) (*roaring.Bitmap, error) {
+	result := roaring.New()
+	// NOTE: must read memory store before getting snapshot, data only moves from memory store to kv store(flush),
+	// if snapshot is got first, a flush which completes before reading memory store hides the flushed data
+	// (not in the old snapshot, no longer in memory store).
+	ii.findSeriesIDsByKeyFromMem(key, result)
+
 	snapshot := ii.family.GetSnapshot()
 	defer snapshot.Close()
 
-	result := roaring.New()
 	seriesIDs := roaring.New()
 	if err := snapshot.Load(key, func(value []byte) error {
 		if _, err := bitmapUnmarshal(seriesIDs, value); err != nil {
@@ -295,15 +300,20 @@ func (ii *invertedIndex) getSeriesIDs(key uint32) (*roaring.Bitmap, error) {
 	}); err != nil {
 		return nil, err
 	}
-	ii.findSeriesIDsByKeyFromMem(key, result)
 	return result, nil
 }
 
 func (ii *invertedIndex) findSeriesIDsByKeys(keys *roaring.Bitmap) (*roaring.Bitmap, error) {
+	result := roaring.New()
+	// NOTE: must read memory store before getting snapshot(same as getSeriesIDs)
+	memIt := keys.Iterator()
+	for memIt.HasNext() {
+		ii.findSeriesIDsByKeyFromMem(memIt.Next(), result)
+	}
+
 	snapshot := ii.family.GetSnapshot()
 	defer snapshot.Close()
 
-	result := roaring.New()
 	seriesIDs := roaring.New()
 	it := keys.Iterator()
 	for it.HasNext() {
@@ -318,7 +328,6 @@ func (ii *invertedIndex) findSeriesIDsByKeys(keys *roaring.Bitmap) (*roaring.Bit
 		}); err != nil {
 			return nil, err
 		}
-		ii.findSeriesIDsByKeyFromMem(key, result)
 	}
 	return result, nil
 }
@@ -422,14 +431,14 @@ func (fi *forwardIndex) put(tagKeyID, tagValueID, seriesID uint32) {
 }
 
 func (fi *forwardIndex) findSeriesIDsForTag(tagKeyID tag.KeyID) (*roaring.Bitmap, error) {
-	snapshot := fi.family.GetSnapshot()
-	defer snapshot.Close()
-
 	result := roaring.New()
-	// read data from mem
+	// read data from mem(NOTE: must read memory store before getting snapshot)
 	fi.loadSeriesIDsInMem(tagKeyID, func(tagIndex *imap.IntMap[uint32]) {
 		result.Or(tagIndex.Keys())
 	})
+
+	snapshot := fi.family.GetSnapshot()
+	defer snapshot.Close()
 
 	// read data from kv store
 	// try to get tag key id from kv store
